@@ -94,6 +94,16 @@ add('C20', "spec/Sgr.tla models SGR parameter assembly, wrapping, the ANSI_RE st
     "Trusted: TLC; Python's format(text, spec) as the oracle for the formatted text; character classes stand for all of Unicode (exploration beyond them).",
     "TLA+ spec Sgr checked by TLC (laws on the abstract alphabet) + every point replayed into Style", "5 C20, 3.7")
 
+add('C17', "spec/SafeEval.tla states the property's policy over abstract expression trees (name classes x calls, attributes, subscripts, lambdas, "
+    "comprehensions, f-string nesting, format-field traversal); TLC checks Policy => no effects on every tree up to the depth bound and prints each "
+    "shape's verdict; each shape is concretised with EVERY member of each name class present in the running interpreter's builtins (all non-pure "
+    "builtins count as capabilities) and evaluated through is_eval_safe/safe_eval and through a parser (constant and alert) under an audit hook, "
+    "sentinel effects and patched interactive builtins; values of accepted expressions are compared with plain evaluation. spec/ConstLoop.tla models "
+    "the interpolation loop of constants (NeverEvaluatesRejected, Bounded, Final, Terminates) and its input-text classes are replayed under a wall-clock guard.",
+    "Trusted: TLC; the PURE allowlist in harness/sandbox.py as the reading of 'pure builtin functions'; plausible-argument tables for capabilities. "
+    "Effects are observed through audit events for sentinel paths/modules and recorder functions, not through OS-level tracing.",
+    "TLA+ specs SafeEval (policy, exhaustive trees) and ConstLoop (model-checked) + concretised replay over all builtins of the interpreter", "5 C17, 3.7")
+
 import sys
 checks = [C[p] for p in props if p in C]
 na = [{"property_id": p, "reason": "check not built yet in this round (build in progress; DESIGN.md section 10 gives the order)"} for p in props if p not in C]
